@@ -412,8 +412,28 @@ static void check_string(Ctx& ctx, int id, const std::string& s) {
   if (id == 0) marker = s.size() >= 3 && (U.compare(0, 3, "INV") == 0 || U.compare(0, 3, "NAN") == 0);
   else if (id == 3) marker = s.size() >= 2 && U.compare(0, 2, "IN") == 0;
   else marker = s.size() >= 3 && U.compare(0, 3, "INV") == 0;
-  // documentation is silent on blanks inside OSGB references (the implementation skips them): excluded from the comparison
-  if (id == 3) for (char c : s) if (isspace((unsigned char)c)) { ctx.count("strings_doc_silent"); return; }
+  // The documentation is silent on blanks inside OSGB references (the implementation skips them).  Acceptance of such a
+  // string is therefore not demanded; but IF it is accepted, the only defensible meaning is that of the string with the
+  // blanks removed: that string must be a valid reference and decode to the same values.
+  if (id == 3) {
+    bool blank = false; for (char c : s) if (isspace((unsigned char)c)) blank = true;
+    if (blank) {
+      ctx.count("strings_doc_silent");
+      if (marker) return;
+      std::string t; for (char c : s) if (!isspace((unsigned char)c)) t += c;
+      for (int c = 0; c < 2; ++c) {
+        Rev r = librev(id, s, c);
+        ctx.sig(r.outcome * 3 + 2);
+        if (r.outcome >= 2) { ctx.fail(key, "foreign exception / crash: " + r.what, FF("foreign-exception")); return; }
+        if (r.outcome == 1) { if (r.lat != SENT || r.lon != SENT || r.prec != ISENT) ctx.fail(key, "outputs modified although the call threw", FF("touched")); continue; }
+        long long ix, iy; int p;
+        if (!ref_decode(id, t, ix, iy, p)) { ctx.fail(key, "string with blanks accepted although '" + printable(t) + "' (blanks removed) is not a valid reference; gives (" + fx(r.lat) + "," + fx(r.lon) + ") prec " + fmti(r.prec), FF("invalid-accepted")); return; }
+        double ea, eb; ref_point(id, ix, iy, p, c, ea, eb);
+        if (r.prec != p || !close_enough(r.lat, ea, 2.0e6) || !close_enough(r.lon, eb, 2.0e6)) ctx.fail(key, "string with blanks decodes differently from the string without them", FF("decode-point"));
+      }
+      return;
+    }
+  }
   for (int c = 0; c < 2; ++c) {
     Rev r = librev(id, s, c);
     ctx.sig(r.outcome * 3 + (marker ? 1 : 0));
